@@ -16,6 +16,10 @@ def run(rep):
     k1(rep, w)
     k2(rep, w)
     k3(rep, w)
+    k4(rep, w)
+    import c06
+    c06.s2(rep, w)     # a class declared in a local scope is a captured local of its own methods: scope exit (also by break /
+    c06.s4(rep, w)     # continue) has to close it, and the open-upvalue list must keep every entry
 
 
 def lookups(w, paths):
@@ -191,3 +195,85 @@ def k3(rep, w):
         r.check(ok, '%s takes the class from the stack (the captured superclass)' % nm,
                 '%s derives the class to search from something other than the popped `super` value (e.g. the receiver\'s dynamic class): '
                 'an inherited method that uses super then starts its search at the wrong class' % nm, f.loc())
+
+
+def _kind_pred(w, g, variants, depth=0):
+    """evaluate a small predicate over FunctionKind: {variant: bool} or None if the shape is not understood. Understands
+    `kind ==/!= FunctionKind::X` (PartialEq call against a promoted constant), a match / matches! on the kind, and a call to a FunctionKind
+    method that is itself such a match."""
+    FK = 'yarel::compiler::FunctionKind'
+    byd = {v.get('discr', i): v['n'] for i, v in enumerate(w.yarel.adts[FK]['variants'])}
+    for bi, t in g.calls():
+        n = callee_name(t) or ''
+        if n.endswith('PartialEq::ne') or n.endswith('PartialEq::eq') or n.endswith('PartialEq>::ne') or n.endswith('PartialEq>::eq'):
+            consts = []
+            for pb in g.raw.get('promoted', []) or []:
+                for b in pb['blocks']:
+                    for s_ in b['s']:
+                        rr = s_.get('r', {})
+                        if rr.get('rv') == 'agg' and rr.get('adt') == FK:
+                            consts.append(rr['v'])
+            if len(consts) == 1:
+                eq = n.endswith('eq')
+                return {v: ((v == consts[0]) == eq) for v in variants}
+            return None
+        if n.startswith(FK + '::') and depth < 2:
+            h = w.fns.get(n)
+            return _kind_pred(w, h, variants, depth + 1) if h is not None else None
+    # a switch on the discriminant with constant results
+    for bi in g.normal_blocks():
+        t = g.blocks[bi]['t']
+        if t['t'] != 'switch':
+            continue
+        if not any(s_.get('r', {}).get('rv') == 'discr' for s_ in g.blocks[bi]['s']):
+            continue
+
+        def const_result(b):
+            for _ in range(4):
+                for s_ in g.blocks[b]['s']:
+                    if (s_.get('d') or {}).get('l') == 0 and s_['r'].get('rv') == 'use':
+                        k = op_const(s_['r']['o'])
+                        if k is not None and 'v' in k:
+                            return bool(k['v'])
+                tt = g.blocks[b]['t']
+                if tt['t'] == 'goto':
+                    b = tt['to']
+                else:
+                    return None
+            return None
+        out = {}
+        for v, cb in t['cases']:
+            if byd.get(v) is not None:
+                out[byd[v]] = const_result(cb)
+        other = const_result(t['else'])
+        for v in variants:
+            out.setdefault(v, other)
+        if all(x is not None for x in out.values()):
+            return out
+    return None
+
+
+def k4(rep, w):
+    """`super.m(..)` runs the superclass method on the receiver of the method whose body contains it. In a nested function or lambda slot
+    zero is that function, not the receiver, so the compiler has to find the enclosing method: the nearest enclosing compiler of *any*
+    method kind (instance method, initialiser, static method), and use the name that method gave its slot zero."""
+    r = rep.rule('K4', 'super takes its receiver from the nearest enclosing method of any kind (instance, initialiser, static), not from the function being compiled', floor=2)
+    sp = w.require_fn(P + 'super_', 'C07')
+    FK = 'yarel::compiler::FunctionKind'
+    variants = [v['n'] for v in w.yarel.adts[FK]['variants']]
+    clos = [g for g in w.fns.values() if g.kind == 'Closure' and g.parent == sp.path]
+    preds = []
+    for g in clos:
+        reads_kind = any(isinstance(e, dict) and e.get('n') == 'kind' for b in g.blocks for s_ in b['s'] for e in (((s_.get('r') or {}).get('p') or {}).get('p') or []))
+        if reads_kind:
+            preds.append(g)
+    if not r.check(len(preds) == 1, 'super_ selects the enclosing method by its kind', 'super_ does not look for the enclosing method (%d kind predicates): inside a lambda or nested function '
+                   '`super.m()` is compiled with slot zero of that function - the closure itself - as the receiver' % len(preds), sp.loc()):
+        return
+    ev = _kind_pred(w, preds[0], variants)
+    if ev is None:
+        raise Broken('C07', 'anchor', 'super_: the kind predicate has a shape the rule cannot evaluate')
+    want_true = [v for v in variants if v in ('Initialiser', 'Method', 'StaticMethod')]
+    r.check(all(ev.get(v) for v in want_true) and ev.get('Function') is False, 'the predicate accepts %s and skips plain functions' % want_true,
+            'the enclosing-method search accepts %s: a method kind it skips (e.g. static methods) makes `super` inside such a method use the receiver of some outer method instead' %
+            sorted(v for v in variants if ev.get(v)), sp.loc())
